@@ -645,6 +645,29 @@ fn run_case(case: &Case) -> Check {
     }
 }
 
+/// decoder handles on a code longer than 2^16 bits (the synthetic 70 600-bit staircase code of the
+/// real-code checks): lengths, buffers and copies beyond 16 bits
+fn wide_cases(_t: Tier) -> Vec<Case> {
+    let rc = super::realcodes::code(4);
+    let h = Mat::from_sparse(&rc.h());
+    let n = rc.n;
+    let word = &rc.codewords[1 % rc.codewords.len()];
+    // a noisy version of a codeword: a handful of weak wrong bits spread over the frame, the last ones beyond position 65536
+    let frame = |salt: usize| -> Vec<Fx> {
+        (0..n)
+            .map(|i| {
+                let s = if word[i] == 1 { -1.0 } else { 1.0 };
+                let wrong = i % 9973 == (7 * salt + 11) % 9973 || i == n - 3 - salt;
+                Fx(if wrong { -0.4 * s } else { 3.0 * s + ((i * 31 + salt) % 7) as f64 * 0.25 })
+            })
+            .collect()
+    };
+    vec![
+        Case::Decoder { h: h.clone(), padded: true, imp: "Phif64".into(), pattern: None, via_file: true, calls: vec![DecCall { llrs: frame(0), as_f32: false, output_len: n, limit: 20 }, DecCall { llrs: frame(1), as_f32: true, output_len: 65_540, limit: 0 }] },
+        Case::Decoder { h, padded: false, imp: "HLMinstarapproxi8".into(), pattern: None, via_file: false, calls: vec![DecCall { llrs: frame(2), as_f32: true, output_len: n, limit: 20 }, DecCall { llrs: frame(3), as_f32: false, output_len: 65_536, limit: 3 }] },
+    ]
+}
+
 pub fn property() -> Property {
     Property {
         id: "C19",
@@ -655,6 +678,13 @@ pub fn property() -> Property {
             strategy,
             check,
             health: &[("calls>=3-with-limit-0", 0.15), ("failing-constructor", 0.20)],
+        }),
+        Box::new(EnumSub {
+            name: "wide-code",
+            rule: "two decoder handles (Phif64 from a file, padded alist; HLMinstarapproxi8 from a string, unpadded alist) on a staircase code of 70 600 bits, two calls each (f64 and f32 buffers, output lengths n, 65 540 and 65 536, limits 20, 3 and 0) on noisy codewords whose wrong bits reach beyond position 2^16: same oracle as above",
+            cases: wide_cases,
+            check,
+            exhaustive: false,
         })],
         assumptions: vec![
             "buffers have the lengths the header documents (LLR buffer = punctured length, encoder output = punctured codeword length); C strings contain no NUL".into(),
